@@ -1,17 +1,19 @@
 #!/bin/sh
-# Run once in /verif after a fresh restore, offline. Builds the conformance harness from
-# files on disk and parses every specification.
-set -e
+# Run once in /verif after a fresh restore, offline. Builds the conformance harness binaries
+# (one per property) from files on disk and parses every specification. Problems with a single
+# property are reported but do not fail the setup: every check rebuilds its own binary and
+# fails on its own (exit 2) if its specification or harness is broken.
 cd "$(dirname "$0")/.."
 export GOFLAGS=-mod=mod GOPROXY=off GOSUMDB=off GOTOOLCHAIN=local
 mkdir -p harness/bin .work evidence replays
 [ -f harness/go.sum ] || cp /repo/go.sum harness/go.sum
-(cd harness && for d in cmd/*/; do id=$(basename "$d"); go build -tags "verif test" -o "bin/vh-$id" "./cmd/$id" || exit 1; done)
-rc=0
+command -v go >/dev/null || { echo "go toolchain missing"; exit 1; }
+command -v java >/dev/null || { echo "java missing"; exit 1; }
+(cd harness && for d in cmd/*/; do id=$(basename "$d"); go build -tags "verif test" -o "bin/vh-$id" "./cmd/$id" || echo "WARNING: harness build failed for $id"; done)
 tmp=$(mktemp -d)
 cp spec/*.tla "$tmp"/
 for f in "$tmp"/*.tla; do
-  (cd "$tmp" && java -DTLA-Library=/opt/veriftools/tlapm/lib/tlapm/stdlib -cp /opt/veriftools/tla/tla2tools.jar:/opt/veriftools/tla/CommunityModules-deps.jar tla2sany.SANY "$(basename "$f")" >"$f.sany" 2>&1) || { echo "SANY failed: $f"; tail -20 "$f.sany"; rc=1; }
+  (cd "$tmp" && java -DTLA-Library=/opt/veriftools/tlapm/lib/tlapm/stdlib -cp /opt/veriftools/tla/tla2tools.jar:/opt/veriftools/tla/CommunityModules-deps.jar tla2sany.SANY "$(basename "$f")" >"$f.sany" 2>&1) || { echo "WARNING: SANY failed: $(basename "$f")"; grep -A3 -i "error" "$f.sany" | head -12; }
 done
 rm -rf "$tmp"
-exit $rc
+exit 0
